@@ -7,6 +7,9 @@
 -/
 import PM.Fill
 import Proofs.Fill
+import Proofs.Wrap
+import PM.CreateFill
+import Proofs.CreateFill
 namespace PM.C15
 open PM
 
@@ -81,6 +84,63 @@ theorem findWrapping_sound (S : Schema) (hdet : ∀ w, (((S.dfa w).edgesOf 0).ma
     (h : findWrapping S d q target = some chain) : isWrapChain S d q target chain = true :=
   findWrapping_sound_aux S d q target hdet chain h
 
+/-- every edge label the wrapper search can meet (at the asked position and at the start state of
+    every node type's content automaton) is a node type of the schema (decidable: bounded quantifiers) -/
+def WrapWF (S : Schema) (d : Dfa) (q : Nat) : Prop :=
+  (∀ e, e ∈ d.edgesOf q → e.1 < S.nodes.size) ∧
+  (∀ nt, nt ∈ S.nodes.toList → ∀ e, e ∈ Dfa.edgesOf nt.dfa 0 → e.1 < S.nodes.size)
+
+instance (S : Schema) (d : Dfa) (q : Nat) : Decidable (WrapWF S d q) := by
+  unfold WrapWF; exact inferInstance
+
+theorem WrapWF.start {S : Schema} {d : Dfa} {q : Nat} (h : WrapWF S d q) (w t s : Nat)
+    (hm : (t, s) ∈ (S.dfa w).edgesOf 0) : t < S.nodes.size := by
+  unfold Schema.dfa Schema.nodeType at hm
+  by_cases hw : w < S.nodes.size
+  · refine h.2 S.nodes[w] (by simp) (t, s) ?_
+    simpa [hw] using hm
+  · have : S.nodes[w]! = default := by simp [hw]
+    rw [this] at hm
+    have he : Dfa.edgesOf (default : NodeType).dfa 0 = [] := rfl
+    rw [he] at hm
+    simp at hm
+
+/-- **completeness of the wrapper search**: if any chain fits, the search finds one.  The fuel
+    `findWrapping` passes is never exhausted: every node type is queued at most once (seen-set), so at
+    most `S.nodes.size + 1` items are ever popped. -/
+theorem findWrapping_complete (S : Schema) (d : Dfa) (q : Nat) (hwf : WrapWF S d q) (target : TypeId)
+    (chain : List TypeId) (hc : isWrapChain S d q target chain = true) :
+    findWrapping S d q target ≠ none := by
+  intro hnone
+  obtain ⟨x, hr, hg⟩ := reach_of_isWrapChain S d q target chain hc
+  unfold findWrapping at hnone
+  refine wrapSearch_complete S d q target S.nodes.size ?_ _ _ _ (winv_init S d q target) ?_ hnone x _ hr hg
+  · intro x t s hm
+    rcases x with _ | w
+    · exact hwf.1 (t, s) hm
+    · exact hwf.start w t s hm
+  · have := unseen_le S.nodes.size []
+    simp only [List.length_cons, List.length_nil]
+    have h2 : 0 ≤ S.nodes.size * S.nodes.size := Nat.zero_le _
+    omega
+
+/-- **the wrapper search finds a shortest chain**: no fitting chain is shorter than the returned one -/
+theorem findWrapping_shortest (S : Schema) (d : Dfa) (q : Nat) (target : TypeId) (c : List TypeId)
+    (h : findWrapping S d q target = some c) (chain : List TypeId)
+    (hc : isWrapChain S d q target chain = true) : c.length ≤ chain.length := by
+  obtain ⟨x, hr, hg⟩ := reach_of_isWrapChain S d q target chain hc
+  exact wrapSearch_shortest S d q target _ _ _ c (winv_init S d q target) h x _ hr hg
+
+/-- the two together, as the property states it: "a shortest such chain is found whenever any chain
+    exists" -/
+theorem findWrapping_shortest_complete (S : Schema) (hdet : ∀ w, (((S.dfa w).edgesOf 0).map (·.1)).Nodup)
+    (d : Dfa) (q : Nat) (hwf : WrapWF S d q) (target : TypeId)
+    (chain : List TypeId) (hc : isWrapChain S d q target chain = true) :
+    ∃ c, findWrapping S d q target = some c ∧ isWrapChain S d q target c = true ∧ c.length ≤ chain.length := by
+  rcases h : findWrapping S d q target with _ | c
+  · exact absurd h (findWrapping_complete S d q hwf target chain hc)
+  · exact ⟨c, rfl, findWrapping_sound S hdet d q target c h, findWrapping_shortest S d q target c h chain hc⟩
+
 private def mkNT (name : String) (isLeaf : Bool) (dfa : Array DfaState) : NodeType :=
   { name := name, isText := false, isInline := false, isLeaf := isLeaf, isAtom := isLeaf,
     inlineContent := false, isolating := false, defining := false, code := false,
@@ -100,5 +160,139 @@ example : findWrapping S4 (S4.dfa 0) 0 3 = some [2] ∧ fillBefore (S4.dfa 2) S4
   · decide +kernel
   · simp [fillBefore, fillSearch, fillEdges, Dfa.run, Dfa.validEnd, Dfa.edgesOf, Schema.dfa, Schema.nodeType,
       Schema.generatable, S4, mkNT]
+
+/-! ### create_and_fill -/
+
+/-- **a node built by `create_and_fill` is schema-valid and contains the given content in order**
+    (as a contiguous block between the fillers).  Guards, all decidable:
+    * `hdet` — the content automata are deterministic (`match_type` follows the first edge with a label);
+    * `hmarks` — the node marks handed over form a canonical set once sorted by `Mark.set_from`
+      (`create_and_fill` does not look at them);
+    * `hcontent` — the given children are themselves valid; `hsz` — none of them is an empty text node
+      (`Fragment.append` decides by sizes: zero-size content is dropped in front of fillers).
+    The built node has type `t`, the computed attributes, the sorted marks, and its children are
+    `before ++ content ++ after` where the fillers carry no marks and are not text. -/
+theorem createAndFill_valid (S : Schema) (hdet : ∀ w q, (((S.dfa w).edgesOf q).map (·.1)).Nodup)
+    (fuel : Nat) (t : TypeId) (attrs : Attrs) (content : List Node) (marks : Marks) (n : Node)
+    (h : S.createAndFill fuel t attrs content marks = .node n)
+    (hmarks : canonicalMarks S (setFrom marks) = true) (hcontent : S.checkKids content = true)
+    (hsz : ∀ c, c ∈ content → c.size ≠ 0) :
+    S.checkNode n = true ∧ S.tyOf n = t ∧ n.marks = setFrom marks ∧
+      computeAttrs (S.nodeType t).attrs attrs = .ok n.attrs ∧
+      ∃ before after, n.kids = before ++ content ++ after ∧
+        ∀ x, x ∈ before ++ after → x.isText = false ∧ x.marks = [] := by
+  obtain ⟨h1, _, h3, h4, h5, h6⟩ := createAndFill_valid_aux S hdet fuel t attrs content marks n h hmarks hcontent hsz
+  exact ⟨h1, h3, h4, h5, h6⟩
+
+/-- one content automaton as `Schema.__init__` leaves it: deterministic, edge targets and labels in
+    range, at least one state, and from every state a valid end can be reached through generatable
+    types (`fill_before(Fragment.empty, True)` finds something there — this is what the constructor's
+    dead-end check guarantees).  Bounded quantifiers only. -/
+def DfaLive (S : Schema) (d : Dfa) : Prop :=
+  0 < d.size ∧
+  ∀ q, q < d.size →
+    ((d.edgesOf q).map (·.1)).Nodup ∧
+    (∀ e, e ∈ d.edgesOf q → e.2 < d.size ∧ e.1 < S.nodes.size) ∧
+    fillBefore d S.generatable q [] true ≠ none
+
+/-- every node type's content automaton is like that -/
+def LiveSchema (S : Schema) : Prop := ∀ nt, nt ∈ S.nodes.toList → DfaLive S nt.dfa
+
+theorem LiveSchema.toAut {S : Schema} (h : LiveSchema S) : LiveAut S := by
+  have hin : ∀ w, w < S.nodes.size → DfaLive S (S.dfa w) := by
+    intro w hw
+    have : S.dfa w = S.nodes[w].dfa := by simp [Schema.dfa, Schema.nodeType, hw]
+    rw [this]
+    exact h _ (by simp)
+  have hout : ∀ w q, ¬ w < S.nodes.size → (S.dfa w).edgesOf q = [] := by
+    intro w q hw
+    have : S.nodes[w]! = default := by simp [hw]
+    unfold Schema.dfa Schema.nodeType
+    rw [this]
+    rfl
+  have hbig : ∀ (d : Dfa) q, ¬ q < d.size → d.edgesOf q = [] := by
+    intro d q hq
+    unfold Dfa.edgesOf
+    have : d[q]? = none := by simp; omega
+    rw [this]
+  refine ⟨?_, ?_, fun w hw => (hin w hw).1, fun w hw q hq => ((hin w hw).2 q hq).2.2⟩
+  · intro w q
+    by_cases hw : w < S.nodes.size
+    · by_cases hq : q < (S.dfa w).size
+      · exact ((hin w hw).2 q hq).1
+      · rw [hbig _ q hq]; simp
+    · rw [hout w q hw]; simp
+  · intro w q ty q' hm
+    by_cases hw : w < S.nodes.size
+    · by_cases hq : q < (S.dfa w).size
+      · exact ((hin w hw).2 q hq).2.1 (ty, q') hm
+      · rw [hbig _ q hq] at hm; simp at hm
+    · rw [hout w q hw] at hm; simp at hm
+
+/-- **`create_and_fill` returns nothing only if no filling exists** — on a schema without dead ends,
+    with computable attributes: `None` comes back exactly when a given child carries a mark the type does
+    not allow, or no sequence of generatable types in front makes the given content match.
+    (Without `LiveSchema` the code can also return `None` because the first front filling found leads
+    to a state with no generatable completion although another front filling would work, e.g. content
+    `(a c (g g)* g n) | (b c)` with `n` non-generatable and given content `c`.) -/
+theorem createAndFill_nothing_iff (S : Schema) (hS : LiveSchema S) (fuel : Nat) (t : TypeId)
+    (ht : t < S.nodes.size) (attrs : Attrs) (content : List Node) (marks : Marks) (a : Attrs)
+    (hca : computeAttrs (S.nodeType t).attrs attrs = .ok a) (hsz : ∀ c, c ∈ content → c.size ≠ 0) :
+    S.createAndFill (fuel + 1) t attrs content marks = .nothing ↔
+      (content.all (fun c => (S.nodeType t).allowsMarks c.marks) = false ∨
+       ∀ fill, isFill (S.dfa t) S.generatable 0 (S.types content) false fill = false) :=
+  createAndFill_nothing_iff_aux S hS.toAut.det t (fun q ty q' hm => (hS.toAut.wf t q ty q' hm).1) (hS.toAut.pos t ht)
+    (hS.toAut.live t ht) fuel attrs content marks a hca hsz
+
+/-- **on a schema without dead ends `create_and_fill` raises nothing but the ValueError of a missing
+    required attribute** (no filler comes back as `None` inside `fill_before`) -/
+theorem createAndFill_raises (S : Schema) (hS : LiveSchema S) (fuel : Nat) (t : TypeId) (attrs : Attrs)
+    (content : List Node) (marks : Marks) (e : Err)
+    (h : S.createAndFill fuel t attrs content marks = .raises e) :
+    e = .valueError ∧ computeAttrs (S.nodeType t).attrs attrs = .error .valueError :=
+  createAndFill_raises_aux S hS.toAut fuel t attrs content marks e h
+
+/-- **the fuel of the model is only a recursion guard**: an answer other than `outOfFuel` is the answer
+    for every larger fuel (the real code has no guard: it recurses without bound exactly when the model
+    runs out of fuel however much it is given) -/
+theorem createAndFill_fuel_mono (S : Schema) (fuel : Nat) (t : TypeId) (attrs : Attrs) (content : List Node)
+    (marks : Marks) (h : S.createAndFill fuel t attrs content marks ≠ .outOfFuel) (k : Nat) :
+    S.createAndFill (fuel + k) t attrs content marks = S.createAndFill fuel t attrs content marks :=
+  PM.createAndFill_fuel_mono S fuel t attrs content marks h k
+
+/-- non-vacuity of the hypotheses of `findWrapping_shortest_complete` on the same schema -/
+example : WrapWF S4 (S4.dfa 0) 0 ∧ isWrapChain S4 (S4.dfa 0) 0 3 [2] = true := by decide
+
+set_option maxRecDepth 4000 in
+/-- non-vacuity for `create_and_fill` on the same schema: `ul.create_and_fill()` is `ul(li(p))`, and
+    `li.create_and_fill(None, [ul(li(p))])` puts the required `p` in front -/
+example :
+    S4.createAndFill S4.fillFuel 2 [] [] [] = .node (.elem 2 [] [] [.elem 3 [] [] [.leaf 1 [] []]]) ∧
+    S4.createAndFill S4.fillFuel 3 [] [.elem 2 [] [] [.elem 3 [] [] [.leaf 1 [] []]]] [] =
+      .node (.elem 3 [] [] [.leaf 1 [] [], .elem 2 [] [] [.elem 3 [] [] [.leaf 1 [] []]]]) := by
+  constructor <;>
+  simp [Schema.createAndFill, Schema.fillFuel, Schema.fillFront, Schema.fillFragment, fillNodesWith, fragOfOpts,
+    fillBefore, fillSearch, fillEdges, Dfa.run, Dfa.matchType, Dfa.validEnd, Dfa.edgesOf, Schema.dfa, Schema.nodeType,
+    Schema.generatable, Schema.types, Schema.tyOf, Node.tyOr, Schema.mkNode, computeAttrs, setFrom, fappendSz, fsize, Node.size,
+    fromArray, addNodes, addNode, NodeType.allowsMarks, Node.marks, Except.map, S4, mkNT]
+
+/-- non-vacuity of `LiveSchema` (the hypothesis of `createAndFill_nothing_iff` / `createAndFill_raises`) -/
+private theorem S4_live : LiveSchema S4 := by
+  intro nt hnt
+  simp only [S4, List.mem_cons, List.not_mem_nil, or_false] at hnt
+  have hq2 : ∀ q, q < 2 → q = 0 ∨ q = 1 := by omega
+  rcases hnt with rfl | rfl | rfl | rfl
+  all_goals
+    refine ⟨by decide, fun q hq => ?_⟩
+    simp only [mkNT, List.size_toArray, List.length_cons, List.length_nil, Nat.zero_add, Nat.reduceAdd] at hq
+    rcases hq2 q (by omega) with rfl | rfl
+    all_goals
+      first
+        | (exfalso; omega)
+        | simp [fillBefore, fillSearch, fillEdges, Dfa.run, Dfa.validEnd, Dfa.edgesOf, Schema.generatable,
+            Schema.nodeType, S4, mkNT]
+
+/-- … and of the determinism hypothesis `hdet` of `createAndFill_valid` / `findWrapping_sound` -/
+example : ∀ w q, (((S4.dfa w).edgesOf q).map (·.1)).Nodup := S4_live.toAut.det
 
 end PM.C15
